@@ -86,8 +86,14 @@ def is_connected(nodes, edges):
     return len(comp_of(nodes[0], nodes, edges)) == len(nodes)
 
 
+def _labels(rng, n):
+    # vertex labels are arbitrary hashables; one case in four uses numbers that are not small
+    off = rng.choice([0, 0, 0, 500])
+    return [off + x for x in rng.sample(range(0, 3 * n + 2), n)]
+
+
 def random_connected_graph(rng, n, extra_p):
-    labels = rng.sample(range(0, 3 * n + 2), n)
+    labels = _labels(rng, n)
     edges = []
     for i in range(1, n):
         j = rng.randrange(i)
@@ -102,7 +108,7 @@ def random_connected_graph(rng, n, extra_p):
 
 
 def named_motif(rng, kind, n):
-    labels = rng.sample(range(0, 3 * n + 2), n)
+    labels = _labels(rng, n)
     if kind == "clique":
         edges = [[labels[i], labels[j]] for i in range(n) for j in range(i + 1, n)]
     elif kind == "cycle":
